@@ -10,6 +10,7 @@ from typing import Any, Callable, Dict, Iterable, List, Mapping, NamedTuple, Opt
 from django.template import Context, NodeList
 from django.template.base import Parser, Token
 from django.template.exceptions import TemplateSyntaxError
+from django.utils.html import format_html
 
 from django_components.expression import process_aggregate_kwargs
 from django_components.util.tag_parser import TagAttr, parse_tag
@@ -216,12 +217,15 @@ def merge_repeated_kwargs(params: List[TagParam]) -> List[TagParam]:
             if index not in replaced_param_indices:
                 orig_param = params_by_key[param.key]
                 orig_param_index = param_indices_by_key[param.key]
-                param_copy = TagParam(key=orig_param.key, value=str(orig_param.value))
+                param_copy = TagParam(key=orig_param.key, value=orig_param.value)
                 resolved_params[orig_param_index] = param_copy
                 params_by_key[param.key] = param_copy
                 replaced_param_indices.add(orig_param_index)
 
-            params_by_key[param.key].value += " " + str(param.value)
+            # NOTE: format_html escapes each value unless it is already safe (e.g. `class="{{ cls }} btn"`),
+            #       so that a safe value joined with an unsafe one is not escaped for a second time later on.
+            merged_param = params_by_key[param.key]
+            merged_param.value = format_html("{} {}", merged_param.value, param.value)
 
     return resolved_params
 
